@@ -36,6 +36,8 @@ def make_cases_for(tier, seed):
             yield ("F", i), i
         for i in range(len(special_value_sets())):
             yield ("V", i), i
+        for i in range(len(OBSERVED_SETS)):
+            yield ("R", i), i
     return make_cases
 
 
@@ -50,7 +52,7 @@ def rule_text(tier):
             "target, every split, unreachable ops, cross-routine jumps, routines starting with a Jump), single routines with "
             + ("4" if quick else "4-5") + " ops over {op, branch, jump, end}, sets with context ops / hold, and (F) 38 sets that take the "
             "SsbScript fallback and carry one parameter value of every kind (negative position-mark coordinates, strings with quotes / new lines ..) and (V) 35 sets with boolean-like tests "
-            "(debug / edit / variation / performance) on other numbers than 0 and 1 and bit operations on the performance progress list")
+            "(debug / edit / variation / performance) on other numbers than 0 and 1 and bit operations on the performance progress list, (R) 7 larger sets that random searches once found failing")
 
 
 def materialise(cid, case):
@@ -79,6 +81,8 @@ def materialise(cid, case):
         return fallback_param_set(case) + (None, None)
     if cid[0] == "V":
         return special_value_set(case) + (None, None)
+    if cid[0] == "R":
+        return observed_set(case) + (None, None)
     rops, infos, coros = GS.materialize(case, SEED, info_variant=cid[1])
     return rops, infos, coros, None, None
 
@@ -121,6 +125,36 @@ def special_value_sets():
     out.append([O(1, "flag_Set", [perf, 1]), O(4, "flag_CalcValue", [perf, 2, 1]), O(8, "flag_Clear", [perf]), O(10, "Return", [])])
     out.append([O(1, "Branch", [perf, 1, 6]), O(5, "a", []), O(6, "BranchValue", [perf, 3, 1, 12]), O(11, "b", []), O(12, "End", [])])
     return out
+
+
+# (R) routine sets beyond the size bounds of (B) that were found failing once (by sub-agents' random searches); written as
+# (opcode, parameters, index of the target op or None)
+OBSERVED_SETS = [
+    [("Switch", ["$V"], None), ("Case", [1], 4), ("message_Talk", [1], None), ("Jump", [], 6), ("Call", [], 2), ("Jump", [], 6), ("Return", [], None)],
+    [("Jump", [], 4), ("op_x", [1], None), ("Branch", ["$V0", 3], 0), ("Jump", [], 4), ("Case", [1], 2), ("Case", [2], 3), ("End", [], None)],
+    [("op_x", [0], None), ("op_y", [1], None), ("Case", [0], 5), ("Case", [1], 1), ("op_z", [4], None), ("Jump", [], 2), ("End", [], None)],
+    [("foo", [], None), ("Jump", [], 2), ("bar", [], None), ("Return", [], None)],
+    [("BranchBit", ["$B", 3], 3), ("WaitAnimation", [], None), ("Jump", [], 6), ("Branch", ["$V", 1], 6), ("Call", [], 1), ("Jump", [], 6), ("Return", [], None)],
+    [("Switch", ["$V"], None), ("Case", [1], 4), ("Case", [2], 6), ("Jump", [], 8), ("a", [], None), ("Jump", [], 8), ("Call", [], 4), ("Jump", [], 8), ("Hold", [], None)],
+    [("a", [], None), ("Call", [], 3), ("End", [], None), ("b", [], None), ("Call", [], 0), ("Return", [], None)],
+]
+
+
+def observed_set(i):
+    from explorerscript.ssb_converting.ssb_data_types import SsbOperation, SsbOpCode, SsbRoutineInfo, SsbRoutineType, SsbOpParamConstant
+    spec = OBSERVED_SETS[i]
+    offs = []
+    off = 1
+    for name, params, target in spec:
+        offs.append(off)
+        off += 1 + len(params) + (1 if target is not None else 0)
+    ops = []
+    for (name, params, target), o in zip(spec, offs):
+        ps = [SsbOpParamConstant(p) if isinstance(p, str) else p for p in params]
+        if target is not None:
+            ps.insert(lts.JUMP_INDEX[name], offs[target])
+        ops.append(SsbOperation(o, SsbOpCode(-1, name), ps))
+    return [ops], [SsbRoutineInfo(SsbRoutineType.GENERIC, 0)], [None]
 
 
 def special_value_set(i):
